@@ -442,6 +442,14 @@ func registerEnv(e *Engine) {
 		if f.rpos >= len(f.content) {
 			return tuple{int64(0), e.ioEOF()}
 		}
+		// a short read announced by the harness (vf.StdinFrom): io.Reader may return fewer
+		// bytes than asked for; the rest arrives with the following reads
+		if p, ok := e.hostState["readPortion"].(int); ok && p > 0 {
+			delete(e.hostState, "readPortion")
+			if p < len(dst) {
+				dst = dst[:p]
+			}
+		}
 		n := copy(dst, f.content[f.rpos:])
 		f.rpos += n
 		return tuple{int64(n), iface{}}
